@@ -15,6 +15,9 @@ CONSTANTS
   Quantum = 1
   MaxTime = 0
   Rule = "sum"
+  Cfgs = {"A"}
+  InitCfg = "A"
+  RL = "safe"
   Off = {}
   Lim <- NoLim
 CONSTRAINT HighWater
